@@ -12,7 +12,8 @@ tm = KaniUnit("c10_tm", CORE, modules=[dict(file=TM, src="c10_termination.rs")],
 al = VerusUnit('al_astar', 'al_astar', rlimit=60)
 yr = VerusUnit("c13_yen_run", "c13_yen_run", rlimit=60)
 svia = VerusUnit("c13_single_via", "c13_single_via", rlimit=60)
-cb = VerusUnit("c10_combined", "c10_combined", rlimit=30)
+tm.native_witnesses = ["c10_wit_runtime_limit_is_a_duration"]
+cb = VerusUnit("c10_combined", "c10_combined", rlimit=30, paired_kani=(tm, []))
 bw = KaniUnit("c10_builder_wit", "routee-compass", modules=[dict(file="routee-compass/src/app/compass/config/termination_model_builder.rs", src="c10_builder_wit.rs")], harnesses=[])
 bw.native_witnesses = ["c10_wit_configured_limits_are_the_limits_in_force"]
 UNITS = [tm, cb, al, yr, svia, bw]
